@@ -43,4 +43,5 @@ def run(ctx, rep):
     rep.run(RT.rule_lists_kept_whole, ctx, rep, "N8")
     rep.run(RF.rule_parent_walk_truthiness, ctx, rep, "N9")
     rep.run(RI.rule_flat_name_of_nested_arguments, ctx, rep, "N10")
+    rep.run(RI.rule_typedef_yields_one_instantiation, ctx, rep, "N11")
     rep.run(RF.rule_locals_defined, ctx, rep, "U1", packages=("gtwrap/template_instantiator",), min_functions=3)
